@@ -2,8 +2,8 @@
 (* The NONDETERMINISTIC federated executor (C01).                             *)
 (*                                                                            *)
 (* State: the slots <<object, field, argument>> fetched so far with the       *)
-(* values the subgraphs returned (val) = the gateway's partial response, and  *)
-(* the relation `at`: <<o, sg, o2, prov>> = "subgraph sg can resolve fields   *)
+(* values the subgraphs returned (kv) = the gateway's partial response, and  *)
+(* the relation `kat`: <<o, sg, o2, prov>> = "subgraph sg can resolve fields   *)
 (* of the gateway's object o, which it sees as o2, with field set prov        *)
 (* provided".                                                                 *)
 (*   FetchField(slot, position): enabled iff the subgraph is positioned on    *)
@@ -17,7 +17,7 @@
 (*      whose fields are fetched; sg looks the entity up by the key VALUES.   *)
 (*      Entering only ever adds positions, so it is applied eagerly (closure  *)
 (*      EnterAll after a key field was fetched) instead of being interleaved. *)
-(* What may be fetched: the slots the partial response still demands (dem)    *)
+(* What may be fetched: the slots the partial response still demands (kdem)    *)
 (* and the key / @requires-input fields of every object seen so far.          *)
 (* Fetches of different slots commute (each only adds its slot), therefore    *)
 (* the ORDER of independent fetches is fixed (a partial-order reduction);     *)
@@ -30,19 +30,19 @@
 (*                        can be planned; pins which layouts are legitimate)  *)
 EXTENDS FedCatalog
 
-VARIABLES cfg, val, at, dem       \* dem = slots the current partial response still demands
-fvars == <<cfg, val, at, dem>>
+VARIABLES kcfg, kv, kat, kdem       \* kdem = slots the current partial response still demands
+fvars == <<kcfg, kv, kat, kdem>>
 
-Ent == Catalog[cfg.e]
+Ent == Catalog[kcfg.e]
 Sgs == Ent.sgs
-TheU == IF cfg.u = 0 THEN Ent.broken ELSE Ent.universes[cfg.u]
-TheOp == Ent.ops[cfg.i]
-Sup == Supers[cfg.e]
-SubT(sg) == Subs[cfg.e][sg]
+TheU == IF kcfg.u = 0 THEN Ent.broken ELSE Ent.universes[kcfg.u]
+TheOp == Ent.ops[kcfg.i]
+Sup == Supers[kcfg.e]
+SubT(sg) == Subs[kcfg.e][sg]
 
 MonoResult == Exec(Mono(Sup, TheU), TheOp.doc, TheOp.vars)
 FedResultOf(v) == Exec(Fed(Sup, TheU, v), TheOp.doc, TheOp.vars)
-FedResult == FedResultOf(val)
+FedResult == FedResultOf(kv)
 
 RECURSIVE Markers(_)
 Markers(v) ==
@@ -50,7 +50,7 @@ Markers(v) ==
     [] v.t \in {"o", "l"} -> UNION {Markers(v.v[i]) : i \in DOMAIN v.v}
     [] OTHER -> {}
 DemandedOf(v) == Markers(FedResultOf(v).data)
-Terminated == dem = {}
+Terminated == kdem = {}
 
 TypeOfObj(o) == TheU.objs[o].type
 RECURSIVE RefsIn(_)
@@ -69,17 +69,17 @@ ProjVal(v, o, sel) ==
         IN IF sel[i].sel = <<>> \/ x.t # "r" THEN x ELSE ProjVal(v, x.v, sel[i].sel)])
 
 \* what the gateway may fetch next: demanded slots + key / @requires-input fields of the objects seen so far
-Wanted == (dem \cup {<<o, p[2], "">> : o \in SeenObjs(val), p \in SupPairs[cfg.e]}) \ DOMAIN val
-WantedOK(s) == s \in dem \/ <<TypeOfObj(s[1]), s[2]>> \in SupPairs[cfg.e]
+Wanted == (kdem \cup {<<o, p[2], "">> : o \in SeenObjs(kv), p \in SupPairs[kcfg.e]}) \ DOMAIN kv
+WantedOK(s) == s \in kdem \/ <<TypeOfObj(s[1]), s[2]>> \in SupPairs[kcfg.e]
 
 ArgOfDig(dv, a) == IF \E i \in DOMAIN dv.m : Dig(dv.m[i].k) = a THEN dv.m[CHOOSE i \in DOMAIN dv.m : Dig(dv.m[i].k) = a].v ELSE dv.d
 
-\* the subgraph p[2], positioned on s[1] through p \in at, can resolve slot s now
+\* the subgraph p[2], positioned on s[1] through p \in kat, can resolve slot s now
 FetchOK(s, p) ==
   /\ p[1] = s[1]
   /\ Resolvable(SubT(p[2]), TheU.objs[p[3]].type, s[2], p[4])
-  /\ LET fd == FieldOf(SubT(p[2]), TheU.objs[p[3]].type, s[2]) IN fd.req # <<>> => KnownSel(val, s[1], fd.req)
-Fetchable == {s \in {w \in Wanted : WantedOK(w)} : \E p \in at : FetchOK(s, p)}
+  /\ LET fd == FieldOf(SubT(p[2]), TheU.objs[p[3]].type, s[2]) IN fd.req # <<>> => KnownSel(kv, s[1], fd.req)
+Fetchable == {s \in {w \in Wanted : WantedOK(w)} : \E p \in kat : FetchOK(s, p)}
 
 \* positions obtainable through resolvable keys whose fields are fetched in v (every matching candidate: with
 \* unique keys there is exactly one)
@@ -106,24 +106,24 @@ FetchField(s, p) ==
          M == Sub(SubT(sg), TheU)
          fd == FieldOf(SubT(sg), tn, fn)
          dv == FieldData(M, o2, fn)
-         v == IF fd.req # <<>> THEN ReqValue(fn, ProjVal(val, o, fd.req))
+         v == IF fd.req # <<>> THEN ReqValue(fn, ProjVal(kv, o, fd.req))
               ELSE IF dv.t = "fn" THEN ArgOfDig(dv, s[3]) ELSE dv
          cprov == IF fd.prov # <<>> THEN fd.prov ELSE ProvSub(p[4], fn)
-         nv == [x \in DOMAIN val \cup {s} |-> IF x = s THEN v ELSE val[x]]
-     IN /\ val' = nv
-        /\ dem' = IF s \in dem THEN DemandedOf(nv) ELSE dem
-        /\ at' = at \cup {<<r, sg, r, cprov>> : r \in (RefsIn(v) \cap DOMAIN TheU.objs)}
-                    \cup (IF <<tn, fn>> \in SupPairs[cfg.e] THEN EnterAll(nv) ELSE {})
-        /\ UNCHANGED cfg
+         nv == [x \in DOMAIN kv \cup {s} |-> IF x = s THEN v ELSE kv[x]]
+     IN /\ kv' = nv
+        /\ kdem' = IF s \in kdem THEN DemandedOf(nv) ELSE kdem
+        /\ kat' = kat \cup {<<r, sg, r, cprov>> : r \in (RefsIn(v) \cap DOMAIN TheU.objs)}
+                    \cup (IF <<tn, fn>> \in SupPairs[kcfg.e] THEN EnterAll(nv) ELSE {})
+        /\ UNCHANGED kcfg
 
 Done == Terminated /\ UNCHANGED fvars
 
 Start(c) ==
-  /\ cfg = c
-  /\ val = <<>>
-  /\ dem = Markers(Exec(Fed(Supers[c.e], IF c.u = 0 THEN Catalog[c.e].broken ELSE Catalog[c.e].universes[c.u], <<>>),
+  /\ kcfg = c
+  /\ kv = <<>>
+  /\ kdem = Markers(Exec(Fed(Supers[c.e], IF c.u = 0 THEN Catalog[c.e].broken ELSE Catalog[c.e].universes[c.u], <<>>),
                         Catalog[c.e].ops[c.i].doc, Catalog[c.e].ops[c.i].vars).data)
-  /\ at = {<<"Q", sg, "Q", <<>>>> : sg \in {j \in DOMAIN Catalog[c.e].sgs : HasName(Catalog[c.e].sgs[j].types, "Query")}}
+  /\ kat = {<<"Q", sg, "Q", <<>>>> : sg \in {j \in DOMAIN Catalog[c.e].sgs : HasName(Catalog[c.e].sgs[j].types, "Query")}}
 FedInit ==
   \E e \in DOMAIN Catalog : \E u \in DOMAIN Catalog[e].universes : \E i \in DOMAIN Catalog[e].ops :
      Start([e |-> e, u |-> u, i |-> i])
@@ -133,7 +133,7 @@ NegInit == \E i \in DOMAIN Catalog[1].ops : Start([e |-> 1, u |-> 0, i |-> i])
 FedNext ==
   \/ /\ Fetchable # {}
      /\ LET s == CHOOSE x \in Fetchable : TRUE       \* fixed order of independent fetches
-        IN \E p \in at : FetchField(s, p)
+        IN \E p \in kat : FetchField(s, p)
   \/ Done
 FedSpec == FedInit /\ [][FedNext]_fvars
 NegSpec == NegInit /\ [][FedNext]_fvars
